@@ -29,6 +29,13 @@ type Job struct {
 	Bootstrap string `json:"bootstrap"`
 	BootVer   int    `json:"boot_ver"`
 	TimeoutMS int    `json:"timeout_ms"`
+
+	// option dimension (fwd.go)
+	SoMark         int    `json:"so_mark"`
+	Tag            string `json:"tag,omitempty"`
+	EnablePipeline bool   `json:"enable_pipeline,omitempty"`
+	EnableHTTP3    bool   `json:"enable_http3,omitempty"`
+	IdleTimeout    int    `json:"idle_timeout,omitempty"`
 }
 
 type Result struct {
@@ -45,6 +52,9 @@ type JobSet struct {
 	Done      bool  `json:"done,omitempty"`
 	Jobs      []Job `json:"jobs,omitempty"`
 	SharedTLS bool  `json:"shared_tls,omitempty"` // all members are built from one *tls.Config
+	// Forward: the members are the upstreams of one forward plugin with these
+	// plugin-global options
+	Forward *FwdGlobal `json:"forward,omitempty"`
 }
 
 type Req struct {
@@ -145,6 +155,10 @@ func runSet(set *JobSet, roots *x509.CertPool, w int) []Result {
 	res := make([]Result, len(set.Jobs))
 	go func() {
 		defer close(done)
+		if set.Forward != nil {
+			runForwardSet(set, res, w)
+			return
+		}
 		var shared *tls.Config
 		if set.SharedTLS {
 			shared = &tls.Config{RootCAs: roots} // ServerName deliberately left empty
@@ -158,14 +172,7 @@ func runSet(set *JobSet, roots *x509.CertPool, w int) []Result {
 			if cfg == nil {
 				cfg = &tls.Config{RootCAs: roots}
 			}
-			u, err := upstream.NewUpstream(job.Addr, upstream.Opt{
-				DialAddr:     job.DialAddr,
-				Socks5:       job.Socks5,
-				Bootstrap:    job.Bootstrap,
-				BootstrapVer: job.BootVer,
-				SoMark:       job.ID + 1,
-				TLSConfig:    cfg,
-			})
+			u, err := upstream.NewUpstream(job.Addr, optOf(job, cfg))
 			if err != nil {
 				res[i].NewErr = err.Error()
 				continue
